@@ -26,7 +26,7 @@ type acCase struct {
 	Cookie bool   `json:"cookie,omitempty"`
 }
 
-var acStrDefs = []string{"DEF", "%41", " d ", "%zz", "a b", "x"}
+var acStrDefs = []string{"DEF", "%41", " d ", "%zz", "a b", "x", "longer-default", "0123456789"}
 
 func numClass(fn, raw string) (class, conv string) {
 	switch fn {
@@ -176,25 +176,25 @@ func acOne(c acCase, tr *traceWriter) {
 			out = strings.Join(r, "\x1f")
 		case "QueryBool":
 			if c.HasDef {
-				out = fmt.Sprint(ctx.QueryBool("k", true))
+				out = fmt.Sprint(ctx.QueryBool("k", len(def)%2 == 0))
 			} else {
 				out = fmt.Sprint(ctx.QueryBool("k"))
 			}
 		case "QueryInt":
 			if c.HasDef {
-				out = fmt.Sprint(ctx.QueryInt("k", 7))
+				out = fmt.Sprint(ctx.QueryInt("k", len(def)-3))
 			} else {
 				out = fmt.Sprint(ctx.QueryInt("k"))
 			}
 		case "QueryInt64":
 			if c.HasDef {
-				out = fmt.Sprint(ctx.QueryInt64("k", 7))
+				out = fmt.Sprint(ctx.QueryInt64("k", int64(len(def)-3)))
 			} else {
 				out = fmt.Sprint(ctx.QueryInt64("k"))
 			}
 		case "QueryFloat64":
 			if c.HasDef {
-				out = fmt.Sprint(ctx.QueryFloat64("k", 2.5))
+				out = fmt.Sprint(ctx.QueryFloat64("k", float64(len(def))-2.5))
 			} else {
 				out = fmt.Sprint(ctx.QueryFloat64("k"))
 			}
@@ -233,13 +233,13 @@ func acOne(c acCase, tr *traceWriter) {
 	class, conv, zero, defs := "ok", rawv, "", def
 	switch c.Fn {
 	case "QueryBool":
-		zero, defs = "false", "true"
+		zero, defs = "false", fmt.Sprint(len(def)%2 == 0)
 	case "QueryInt", "QueryInt64":
-		zero, defs = "0", "7"
+		zero, defs = "0", fmt.Sprint(len(def)-3)
 	case "ParamInt", "ParamInt64":
 		zero = "0"
 	case "QueryFloat64":
-		zero, defs = "0", "2.5"
+		zero, defs = "0", fmt.Sprint(float64(len(def))-2.5)
 	case "QueryStrings":
 		defs = def + "\x1fsecond"
 	}
